@@ -4,6 +4,7 @@ C06 — capacity discipline and size bounds.
 import ZstdVerif.Model.Bound
 import ZstdVerif.Model.Walker
 import ZstdVerif.Props.C09
+import ZstdVerif.Lemmas.ExecRT
 namespace ZstdVerif.Props.C06
 open ZstdVerif ZstdVerif.Bound ZstdVerif.Gen
 
@@ -58,5 +59,15 @@ theorem frameSize_indep_of_suffix (g : Walker.Get) (ip rem n extra : Nat) (h : W
   ⟨hge (rem + extra) (by omega), hle⟩
 
 example : compressBound 0 = 64 ∧ compressBound 131072 = 131584 := by decide
+
+
+/-! ### decoding side of the capacity discipline -/
+
+/-- **decode_never_exceeds_capacity**: for every input (valid or not), dictionary and capacity, a successful single-call decode of
+the model decoder returns at most the capacity; the model's verdict and size are compared with ZSTD_decompress on every capacity of the
+decode sweeps, which run in exact-size sanitizer-guarded destinations -/
+theorem decode_never_exceeds_capacity {src : Bytes} {dict : Frame.Dict} {cap : Nat} {o : Frame.Opts} {res : ByteArray × Array Frame.FrameTrace}
+    (h : Frame.decompressAll src dict cap o = .ok res) : res.1.size ≤ cap :=
+  Frame.decompressAll_within_capacity h
 
 end ZstdVerif.Props.C06
